@@ -66,7 +66,7 @@ void Track::add_note(int note, uint16_t duration)
 	shuffle = -shuffle;
 
 	if(!in_drum_mode())
-		note += octave * 12;
+		note = (int)((unsigned)note + (unsigned)octave * 12u); // wraps instead of overflowing
 	else
 		note += drum_mode;
 
